@@ -121,4 +121,14 @@ CHECKS = {
             {"part": "patch", "test": "TestPatch", "quick": {"checks": 640, "shards": 16}, "thorough": {"checks": 30000, "shards": 16, "timeout": 3000}},
         ],
     },
+    "C10": {
+        "pkg": "c10",
+        "technique": "grammar-based property testing (rapid): generated config descriptions rendered as JSON/YAML twins vs documented effective config; single-fault mutants; arbitrary bytes",
+        "level_text": "Random documents from the documented grammar loaded by the real LoadAndValidate: JSON/YAML equivalence, equality with the documented effective configuration, rejection of 22 kinds of single-fault mutants, no panic on arbitrary bytes. Search, not proof.",
+        "level_note": "Trusted: the expected-effective-config function written from docs/src/HOOKS.md; include lists are compared as sets.",
+        "parts": [
+            {"part": "config", "test": "TestConfig", "quick": {"checks": 4000, "shards": 8}, "thorough": {"checks": 200000, "shards": 16, "timeout": 3000}},
+            {"part": "bytes", "test": "TestBytes", "quick": {"checks": 16000, "shards": 8}, "thorough": {"checks": 1000000, "shards": 16, "timeout": 3000}},
+        ],
+    },
 }
